@@ -485,6 +485,7 @@ func TestTwistedEdwards(t *testing.T) {
 				return
 			}
 		}
+		rec.Begin("te", c)
 		rec.Report(rt, "te", c, runTE(c))
 	})
 }
@@ -743,6 +744,7 @@ func TestEdDSA(t *testing.T) {
 	g := genEdDSA(names)
 	checkSerial(rec, t, "eddsa", ev.N(60, 1500), func(rt *rapid.T) {
 		c := g.Draw(rt, "case")
+		rec.Begin("eddsa", c)
 		rec.Report(rt, "eddsa", c, runEdDSA(c))
 	})
 }
@@ -914,6 +916,7 @@ func TestAdversaryTwistedEdwards(t *testing.T) {
 			rec.Discarded("te-adv:excluded shape of open finding " + SigTEZeroSubscalars)
 			return
 		}
+		rec.Begin("te-adv", c)
 		rec.Report(rt, "te-adv", c, runTEAdv(c))
 	})
 }
